@@ -4,6 +4,7 @@
     115.23 degC, 1.106 MPa) and at a steam state (supst: theta = 0.9, beta = 0.05, i.e.
     309.42 degC, 1.106 MPa).  Every divisor, every argument of sqrt and of **, every atom is
     evaluated by interval arithmetic on the real-number reading of the traced DAG. *)
+Set Warnings "-ambiguous-paths,-notation-overridden".
 From Coq Require Import ZArith QArith Qreals Reals List Bool Lia Lra.
 From Coquelicot Require Import Coquelicot.
 From Interval Require Import Tactic.
